@@ -155,10 +155,16 @@ def seven_bit_refusals(ck, flex, scratch, cases, results, stats):
     wd = scratch.sub("sevenbit")
     n = 40
     wrong = 0
+    forms = ["\\x%02x", "[\\x%02x]", "[a\\x%02x]", "\"\\x%02x\"", "[^\\x%02x]", "a|\\%03o"]
+    # the boundary first: 0x80 is the first byte a 7-bit scanner cannot hold, 0x7f the last it can
+    fixed = [(128, True, f) for f in forms] + [(255, True, f) for f in forms[:3]] + [(127, False, f) for f in forms[:3]]
+    n += len(fixed)
     for i in range(n):
         need8 = i % 2 == 0
         c = rng.rng(128, 255) if need8 else rng.rng(1, 127)
-        form = rng.pick(["\\x%02x", "[\\x%02x]", "[a\\x%02x]", "\"\\x%02x\"", "[^\\x%02x]", "a|\\%03o"])
+        form = rng.pick(forms)
+        if i < len(fixed):
+            c, need8, form = fixed[i]
         pat = form % c
         text = "%%option noyywrap\n%%%%\n%s\t{ }\n%%%%\n" % pat
         lf = os.path.join(wd, "r%d.l" % i)
@@ -166,7 +172,7 @@ def seven_bit_refusals(ck, flex, scratch, cases, results, stats):
             f.write(text)
         tbl = rng.pick(["-Cem", "-Cf", "-CF", "-C"])
         rc, out, err = run([flex, "-7", tbl, "-o", os.path.join(wd, "r%d.c" % i), lf], timeout=30)
-        refused = rc != 0 and err.strip() != b""
+        refused = rc != 0 and b"-8 flag" in err          # the documented diagnostic: 'scanner requires -8 flag to use the character ...'
         if refused != need8:
             wrong += 1
             ck.violation("7bit-refusal:%s" % form, "flex -7 %s pattern %s (needs 8 bit: %s): rc=%s stderr=%s" % (
